@@ -73,12 +73,9 @@ Definition undigit36 (c : N) : option N :=
   else if (65 <=? c) && (c <=? 90) then Some (c - 55)
   else None.
 
-Definition site_header := wd "commands.DecodeRequestHeader".
-
-(* DecodeRequestHeader after ValidateType has succeeded: req[4:] panics below four octets.  req[0:2] is
-   a slice expression and is checked against the capacity, not the length: the request comes from the
-   append in ComposeRequest, whose backing array has at least 8 octets (allocator size classes), zeroed
-   beyond the length; so a missing user id reads as NUL octets and ParseUint rejects it. *)
+(* DecodeRequestHeader after ValidateType has succeeded: a request shorter than the four octets of command
+   letter and cache characters, or (for a command that carries one) shorter than the user id behind them,
+   is an error ("Request too short"); so is a user id that ParseUint(.., 36, 16) does not accept. *)
 Definition decode_header (c : command) (req : bytes) : res (bytes * N) :=
   match req with
   | _ :: _ :: _ :: _ :: rest =>
@@ -89,10 +86,10 @@ Definition decode_header (c : command) (req : bytes) : res (bytes * N) :=
         | Some x, Some y => Ok (rest', x * 36 + y)
         | _, _ => Err (wd "syntax")
         end
-      | _ => Err (wd "syntax")
+      | _ => Err (wd "short")
       end
     else Ok (rest, 0)
-  | _ => Panic site_header
+  | _ => Err (wd "short")
   end.
 
 (* ------------------------------------------------------------------ *)
@@ -192,8 +189,6 @@ Definition decode_packet (uid : N) (body : bytes) : res request :=
     do '(seq, data) <- read_le16 b2 ;;
     Ok (RPacket uid ack (Some (seq, data))).
 
-Definition site_downtest := wd "commands.(*TestDownstreamEncoderRequest).Decode".
-
 Definition decode_kind (e : codec) (k : kind) (c : command) (req : bytes) : res request :=
   do '(rest, uid) <- decode_header c req ;;
   match k with
@@ -210,7 +205,7 @@ Definition decode_kind (e : codec) (k : kind) (c : command) (req : bytes) : res 
   | KUpTest => Ok (RUpTest uid rest)
   | KDownTest =>
     match rest with
-    | [] => Panic site_downtest                             (* req[0] *)
+    | [] => Err (wd "nocodec")                              (* "Missing downstream encoder code" *)
     | b :: _ =>
       match from_code b with
       | Some c => Ok (RDownTest c)
@@ -219,19 +214,18 @@ Definition decode_kind (e : codec) (k : kind) (c : command) (req : bytes) : res 
     end
   end.
 
-Definition site_decode := wd "commands.Serializer.DecodeDnsRequest".
-
-(* Serializer.DecodeDnsRequest.  The argument is what ComposeRequest returns, which is a nil slice when
-   it is empty: IsOfType then answers false for every command and the error message indexes request[0]. *)
+(* Serializer.DecodeDnsRequest.  On an empty request IsOfType answers false for every command; a reserved
+   command (login, multi-query, error) has no NewRequest and leaves the loop: both end in the "Invalid request"
+   error. *)
 Definition decode_request (e : codec) (x : bytes) : res request :=
   match x with
-  | [] => Panic site_decode
+  | [] => Err (wd "command")
   | b :: _ =>
     match find (fun c => is_of_type c b) commands with
     | None => Err (wd "command")
     | Some c =>
       match cmd_new c with
-      | None => Panic site_decode                           (* c.NewRequest is a nil func *)
+      | None => Err (wd "command")                          (* c.NewRequest == nil *)
       | Some k => decode_kind e k c x
       end
     end
@@ -411,27 +405,6 @@ Definition req_wf (req : request) : bool :=
   | RFragSize uid size => (uid <? 65536) && (size <? 4294967296)
   | RUpTest uid p => (uid <? 65536) && wire_ok p
   | RDownTest _ => true
-  end.
-
-(* exactly when DecodeDnsRequest does not panic: a known command that has a request type, at least the
-   four header octets, and for the downstream-codec probe a fifth one *)
-Definition is_nil {A} (l : list A) : bool := match l with [] => true | _ => false end.
-Definition no_panic_guard (x : bytes) : bool :=
-  match x with
-  | [] => false
-  | b :: t =>
-    match find (fun c => is_of_type c b) commands with
-    | None => true
-    | Some c =>
-      match cmd_new c with
-      | None => false
-      | Some k =>
-        match t with
-        | _ :: _ :: _ :: rest => match k with KDownTest => negb (is_nil rest) | _ => true end
-        | _ => false
-        end
-      end
-    end
   end.
 
 Definition is_panic {A} (r : res A) : bool := match r with Panic _ => true | _ => false end.
